@@ -558,6 +558,8 @@ def impl(case):
             return keyring_impl(case)
         if op == 10:
             return exchange_impl(case)
+        if op == 11:
+            return response_impl(case)
     except Exception as e:  # noqa
         return exc_code(e)
     return Err(998, "bad op")
@@ -587,6 +589,24 @@ def exchange_impl(case):
         except dns.tsig.BadSignature:
             pass
     return [qw, rw, bytes(q.mac), int(bool(sq.had_tsig)), int(bool(cr.had_tsig)), unbound]
+
+
+def response_impl(case):
+    """signed query -> server reads it -> make_response(query, tsig_error=e) -> to_wire"""
+    _, qwire, _rbody, k, rdq, rdr, now, _tab = case
+    key = mk_key(k)
+    mk_rdata(rdq)
+    mk_rdata(rdr)
+    q = dns.message.from_wire(bytes(qwire))
+    q.use_tsig(key, fudge=rdq[2])
+    with clock(now):
+        qw = q.to_wire(want_shuffle=False)
+    with clock(now):
+        sq = dns.message.from_wire(qw, keyring=key)
+    r = dns.message.make_response(sq, fudge=rdr[2], tsig_error=rdr[5])
+    with clock(now + 1):
+        rw = r.to_wire(want_shuffle=False)
+    return [qw, rw]
 
 
 def keyring_impl(case):
@@ -1335,9 +1355,47 @@ def gen_exchange_case(rng):
     return [10, w, gen_key(rng, 0), rng.choice([1700000000, 2 ** 32 - 1, 2 ** 40]), rng.choice([0, 1, 300])]
 
 
+RESPONSE_ERRORS = [0, 16, 17, 18, 22]   # NOERROR, BADSIG, BADKEY, BADTIME, BADTRUNC
+
+
+def gen_response_case(rng, error, alg=None):
+    """a query rendered by the library, the body of the response make_response gives for it (both
+    without TSIG), the key, and the TSIG parameters of both messages"""
+    while True:
+        qwire = gen_exchange_case(rng)[1]
+        # a PADDING option in the query makes make_response pad the response to a block size that
+        # depends on the TSIG size (C08's subject): keep those out of this generator
+        padded = False
+        for r in walk(qwire)["rrs"]:
+            if r["type"] == 41:
+                p_, end = r["rdata"], r["rdata"] + r["rdlen"]
+                while p_ + 4 <= end:
+                    code, olen = struct.unpack("!HH", qwire[p_: p_ + 4])
+                    padded = padded or code == 12
+                    p_ += 4 + olen
+        if not padded:
+            break
+    k = gen_key(rng, 0)
+    if alg is not None:
+        k[2] = list(alg)
+    now = rng.choice([1700000000, 2 ** 32 - 2, 2 ** 40])
+    rbody = dns.message.make_response(dns.message.from_wire(qwire)).to_wire(want_shuffle=False)
+    qid = struct.unpack("!H", qwire[:2])[0]
+    n = rfc_alg(k[2])[1]
+    fq, fr = rng.choice([300, 1, 65535]), rng.choice([300, 0, 600])
+    rdq = [list(k[2]), 0, fq, b"\0" * n, qid, 0, b""]
+    rdr = [list(k[2]), 0, fr, b"\0" * n, qid, error, b""]
+    qmac, qdata, hk = ref_sign(qwire, k, qid, now, fq, 0, b"", b"")
+    rmac, rdata_, _ = ref_sign(rbody, k, qid, now + 1, fr, error, b"", qmac)
+    return [11, qwire, rbody, k, rdq, rdr, now, table(hent(hk[0], hk[1], qdata), hent(hk[0], hk[1], rdata_))]
+
+
 def cases(ctx):
     rng = ctx.rng
     yield "tables", [0]
+    # every TSIG error a response can carry x every algorithm
+    for i in range(ctx.n(45, 450)):
+        yield "response", gen_response_case(rng, RESPONSE_ERRORS[i % 5], ALG_LABELS[(i // 5) % 9])
     for _ in range(ctx.n(25, 300)):
         yield "exchange", gen_exchange_case(rng)
     for _ in range(ctx.n(30, 300)):
@@ -1558,6 +1616,35 @@ def oracle(ctx, kind, case, out):
                     running += w
             else:
                 break
+    elif op == 11:
+        _, qwire, rbody, k, rdq, rdr, now, _ = case
+        if isinstance(out, Err):
+            fail("signed query / make_response(tsig_error=%d) failed: %s" % (rdr[5], out.text), sig="response-failed")
+            return F
+        qw, rw = out
+        vq = rfc_verdict(qw, k[0], k[1], k[2], b"", now)
+        if vq[0] != "accept":
+            fail("signed query is not valid per RFC 8945: " + str(vq[:2]), sig="response-query")
+            return F
+        qmac = vq[1]
+        info = walk(rw)
+        last = info["rrs"][-1] if info["rrs"] and not info["error"] else None
+        if last is None or last["type"] != 250:
+            fail("response to a signed query carries no TSIG", sig="response-unsigned")
+            return F
+        t = walk_tsig_rdata(rw, last["rdata"], last["rdlen"])
+        msg = rfc_strip(rw, last["start"])
+        if t["error"] != rdr[5]:
+            fail("TSIG error of the response is not the one requested", sig="response-error-field")
+        bound = rfc_hmac(k[2], k[1], rfc_first(qmac, t["oid"], msg, last["owner"], t["alg"], t["time"], t["fudge"], t["error"], t["other"]))
+        unbound = rfc_hmac(k[2], k[1], rfc_first(b"", t["oid"], msg, last["owner"], t["alg"], t["time"], t["fudge"], t["error"], t["other"]))
+        # RFC 8945 5.3.2: a signed error response digests the request MAC when that MAC validated
+        # (BADTIME, BADTRUNC and of course NOERROR); for BADSIG/BADKEY the request MAC did not
+        # validate and the RFC prefers an unsigned response, so either digest form is tolerated there
+        ok = (t["mac"] == bound) or (rdr[5] in (16, 17) and t["mac"] in (unbound, b""))
+        if not ok:
+            fail("MAC of the response built by make_response(tsig_error=%d) is not the RFC 8945 HMAC over request MAC + message + TSIG variables"
+                 % rdr[5], sig="response-mac", want=bound, got=t["mac"], unbound=int(t["mac"] == unbound))
     elif op == 10:
         _, qwire, k, now, fudge = case
         if isinstance(out, Err):
